@@ -29,6 +29,12 @@ Rules, on logical quantities only:
               F = 8*peak_live for the shrink-and-keep shapes (fragmentation by construction, peak_live in requested bytes)
   absolute  : max held <= 8*peak_live + 64 MiB
   books     : VmSize - footprint (private allocator) does not grow by more than 256 KiB after warm-up
+  all-free  : private allocator, repeat shapes (no faults / foreign mappings): with everything freed, the segment bytes outside
+              top (minus dv, bins empty; single segment: dv and bins must be empty) are the fixed 80 bytes per segment -
+              anything else is a chunk that is neither live (harness) nor free (allocator): lost, and it blocks coalescing
+  alignrand : repeat shape with pairs (pad 8..136 bytes, block of 1 B..16 KiB aligned to 32..4096) drawn afresh in EVERY
+              repetition, a random half freed and re-allocated mid-way, then everything freed (bounded live, all 16-byte
+              phases of the raw chunk relative to the alignment)
 """
 import json
 import os
@@ -45,13 +51,13 @@ W = 3
 S = 2 * 1024 * 1024 + 64 * 1024
 STACK = 2 * 1024 * 1024 + 64 * 1024
 FOREIGN_POLICIES = ["keep16", "keep", "ring", "transient"]
-SHAPES = ["small", "large", "mixed", "overaligned", "ladder", "round", "aladder", "vecalign", "shrinkkeep", "vecshrink"]
+SHAPES = ["alignrand", "small", "large", "mixed", "overaligned", "ladder", "round", "aladder", "vecalign", "shrinkkeep", "vecshrink"]
 PROBE_ONLY = {"vecalign", "vecshrink"}  # Vec needs the global allocator
 # shrink-and-keep: also sampled with every shrunk block alive; with threads the blocks are handed to main (sampled after the join)
 SAMPLES_MID = {"shrinkkeep", "vecshrink"}
 ORDERS = ["lifo", "fifo", "random"]
 # repetitions per shape: (quick, thorough single-threaded, thorough threaded)
-REPS = {"small": (3000, 60000, 60000), "overaligned": (1500, 8000, 20000), "mixed": (500, 4000, 4000),
+REPS = {"alignrand": (4000, 100000, 100000), "small": (3000, 60000, 60000), "overaligned": (1500, 8000, 20000), "mixed": (500, 4000, 4000),
         "ladder": (120, 1500, 1500), "large": (200, 2000, 2000), "round": (150, 1500, 1500),
         "aladder": (300, 3000, 3000), "vecalign": (400, 4000, 4000), "shrinkkeep": (60, 600, 600), "vecshrink": (60, 600, 600)}
 STEADY_ALIGNS = [32, 64, 128, 4096]
@@ -93,6 +99,21 @@ def parse(out):
             summ = (int(p[1]), int(p[2]), int(p[3]), int(p[4]) if len(p) >= 5 else 0,
                     int(p[5]) if len(p) >= 6 else 0, int(p[6]) if len(p) >= 7 else 0)
     return held, vm, failed, summ
+
+
+def parse_books(out):
+    """'A <rep> <segments> <segment bytes outside top> <dvsize> <smallmap> <treemap>': the private allocator's books with everything freed"""
+    rows = []
+    for line in out.splitlines():
+        p = line.split()
+        if len(p) >= 7 and p[0] == "A":
+            rows.append(tuple(int(x) for x in p[1:7]))
+    return rows
+
+
+# bytes of a segment that are never part of top (alignment of the first chunk + the segment's foot): measured 80 on the
+# unchanged tree, for every shape, in every all-freed sample with empty bins
+SEG_OVERHEAD = 128
 
 
 def slope_last_half(series):
@@ -359,6 +380,27 @@ def run(ck, replay=None):
                     break
             if not bad:
                 judge(ck, wl, vm, peak_live, 1, "VmSize above baseline (harness process, next to footprint)")
+        if wl["runner"] == "harness" and not wl.get("inject") and not wl.get("foreign") and not st:
+            # books: nothing is live at the end of a repetition, so every chunk has been freed and must have coalesced:
+            # with a single segment the whole segment is top again; with several and empty bins, top + dv account for
+            # everything. Bytes that are neither live (harness: 0) nor free (allocator) belong to nobody: lost chunks.
+            rows = parse_books(r["out"])
+            judged = 0
+            for rep, segs, outside_top, dvsize, smallmap, treemap in rows:
+                if segs == 1 or (smallmap == 0 and treemap == 0):
+                    judged += 1
+                    lost = outside_top - (dvsize if segs > 1 else 0)
+                    if lost > SEG_OVERHEAD * max(1, segs) or (segs == 1 and (smallmap or treemap or dvsize)):
+                        later = [x[2] for x in rows if x[1] == 1]
+                        ck.violation("%s/heap-not-all-free-after-everything-was-freed" % sig_prefix(wl, 1),
+                                     {"workload": wl, "first_repetition": rep, "segments": segs, "live_bytes_by_harness": 0,
+                                      "segment_bytes_outside_top": outside_top, "dvsize": dvsize, "smallmap": smallmap, "treemap": treemap,
+                                      "expected_at_most": SEG_OVERHEAD * max(1, segs),
+                                      "outside_top_single_segment_first_last_max": [later[0], later[-1], max(later)] if later else None,
+                                      "repetitions": len(rows)})
+                        bad = True
+                        break
+            ck.count("all_freed_samples_with_books_judged", judged)
         churn += churned
         ck.add_eval(len(held) - W)
         ck.count("samples_of_held_memory", len(held))
@@ -406,7 +448,8 @@ def run(ck, replay=None):
     shutil.rmtree(tmp, ignore_errors=True)
     ck.extra["bytes_churned"] = churn
     ck.extra["calls_failed_by_monitor"] = injected_total
-    ck.extra["rules"] = {"W": W, "S": S, "non_growth": "held(i) <= max(held(0..W)) + S + F, F = 2*peak_live (legitimate retention) "
+    ck.extra["rules"] = {"W": W, "S": S, "all_free": "private allocator, everything freed: segment bytes outside top (- dv) <= 128 per segment "
+                         "when bins are empty; single segment: dv and bins empty", "non_growth": "held(i) <= max(held(0..W)) + S + F, F = 2*peak_live (legitimate retention) "
                          "+ 2 MiB + 64 KiB per live thread stack",
                          "absolute": "max held <= 8*peak_live + 64 MiB",
                          "books": "VmSize - footprint grows by at most 256 KiB after warm-up (private allocator)"}
@@ -426,7 +469,7 @@ def run(ck, replay=None):
     ck.assume("failures of mremap/munmap are produced by sysmon (the call is not executed and returns -ENOMEM/-EFAULT/-EINVAL), for all calls or "
               "the k-th call after the workload's BEGIN marker; munmap is not failed in threaded probes (threads unmap their own stacks with it)")
     return ("four families: (foreign) the repeat shapes with a foreign PROT_NONE mapping before every repetition {16 MiB kept, 4 KiB-16 MiB "
-            "kept / ring / transient} and a final trim-forcing block, 80-2000 repetitions; (repeat) shape {small, large, mixed, over-aligned, realloc ladder, round, realloc ladder on 32..4096-aligned blocks, "
+            "kept / ring / transient} and a final trim-forcing block, 80-2000 repetitions; (repeat) shape {over-aligned random sizes redrawn per repetition (alignrand), small, large, mixed, over-aligned, realloc ladder, round, realloc ladder on 32..4096-aligned blocks, "
             "Vec of over-aligned records, shrink-and-keep (raw realloc and Vec)} x free order {LIFO, FIFO, pseudo-random "
             "reseeded per repetition} x {1 thread; 2-8 threads freeing their own blocks or handing them to main}, N repetitions (quick 120-3000, "
             "thorough up to 60000); (steady) hot chunk size over small-bin and tree-bin classes x primer {remainder -> dv, -> bin, none} x "
